@@ -103,6 +103,7 @@ type cliCmd struct {
 	service  string // "Query" | "Tx" | ""
 	method   string
 	use      string
+	aliases  []string
 	skip     bool
 	posArgs  []cliArg
 	flagKeys []string
@@ -124,6 +125,7 @@ func checkC20(w *World, r *Report) {
 	r.Rule("CLI-BIND", "every autocli binding names an existing service method / protobuf field of its request type (autocli v2.0.0-beta.4 start-up validation)", 20)
 	r.Rule("CLI-USE", "the i-th placeholder of Use names the i-th bound field", 8)
 	r.Rule("CLI-COVER", "every Msg/Query method has a command (not skipped unless authority gated)", 15)
+	r.Rule("CLI-UNIQUE", "command names and aliases of one service are pairwise distinct", 2)
 	r.Rule("APP-ORDER", "module wired into app_config begin/end/genesis order and linked", 5)
 
 	mod := w.Repo[modulePath]
@@ -217,6 +219,18 @@ func checkC20(w *World, r *Report) {
 					c.use = s
 				} else {
 					c.nonConst = append(c.nonConst, "Use")
+				}
+			case "Alias":
+				if al, ok := kv.Value.(*ast.CompositeLit); ok {
+					for _, ae := range al.Elts {
+						if s, ok := constString(info, ae); ok {
+							c.aliases = append(c.aliases, s)
+						} else {
+							c.nonConst = append(c.nonConst, "Alias")
+						}
+					}
+				} else {
+					c.nonConst = append(c.nonConst, "Alias")
 				}
 			case "Skip":
 				if b, ok := constBool(info, kv.Value); ok {
@@ -391,7 +405,52 @@ func checkC20(w *World, r *Report) {
 		}
 	}
 
+	// CLI-UNIQUE: cobra resolves a typed name to the first command whose name or alias matches
+	for _, svc := range []string{"Query", "Tx"} {
+		owner := map[string][]string{}
+		for _, m := range methodsOf(svcIface[svc]) {
+			c := listed[svc][m]
+			if c != nil && c.skip {
+				continue
+			}
+			name := kebab(m)
+			if c != nil && c.use != "" {
+				name = strings.Fields(c.use)[0]
+			}
+			owner[name] = append(owner[name], m)
+			if c != nil {
+				for _, a := range c.aliases {
+					owner[a] = append(owner[a], m+" (alias)")
+				}
+			}
+		}
+		var bad []string
+		for _, k := range sortedKeys(owner) {
+			if len(owner[k]) > 1 {
+				bad = append(bad, fmt.Sprintf("%q names %s", k, strings.Join(owner[k], " and ")))
+			}
+		}
+		r.Check(len(bad) == 0, "CLI-UNIQUE", "service:"+svc, w.pos(decl.Pos()), fmt.Sprintf("the %d command names and aliases of the %s service are pairwise distinct", len(owner), svc),
+			strings.Join(bad, "; ")+": typing that name reaches only the first of them, the other method is unreachable under it (or a different request is sent than the help says)")
+	}
+
 	checkAppOrder(w, r)
+}
+
+// kebab converts a method name to autocli's default command name.
+func kebab(s string) string {
+	var sb strings.Builder
+	for i, r := range s {
+		if r >= 'A' && r <= 'Z' {
+			if i > 0 {
+				sb.WriteByte('-')
+			}
+			sb.WriteRune(r - 'A' + 'a')
+		} else {
+			sb.WriteRune(r)
+		}
+	}
+	return sb.String()
 }
 
 // checkAppOrder: the module name constant is an element of the runtime
